@@ -85,6 +85,21 @@ class C12(PropBase):
                 rep.nontriv(c)
             rep.count(f"delete_after={da}")
         rep.sample({"ops_head": ops[:12], "delete_after": da})
+        # a large table: the sweep comes after at most 12 accepted frames whatever the number of rows
+        for n in (100, 400):
+            crowd = [F.df11(5, 0x500000 + i, 0) for i in range(n)]
+            other = [gen.rand_frame(rng, "df11", 0x4CB000) for _ in range(12)]
+            ops = ["reset", gen.cfg_op(delete_after=5), "case 0"] + gen.seg(crowd) + ["adv 5500", "case 1"] + gen.seg(other) + ["dump"]
+            impl, _, model = run.execute(ops, model=driver_ok)
+            rep.evaluations += n + 12; rep.traces += 1
+            self.corr(rep, impl, model, {"large_table": n}, None)
+            rows = gen.parse_dump(core.split_cases(impl).get("1", []))
+            left = [a for a in rows if 0x500000 <= a < 0x500000 + n]
+            if left:
+                self.fail(rep, f"{len(left)} of {n} aircraft silent for 5 s (delete_after 5) are still listed after 12 further accepted frames",
+                          {"ops": ops, "rows": n})
+                return
+            rep.nontriv(("large", n))
         # a frame after expiry starts a fresh row
         for (u, show, upd) in [(False, False, -1), (True, False, -1), (False, True, -1), (True, True, 0), (False, False, 100000),
                                (True, False, 7), (False, True, 3), (True, False, 2 ** 62)]:
